@@ -42,14 +42,14 @@ pub trait HasChildren: HasContext {
     fn insert_by_id(&self, value: Rc<XmlItem>, id: Option<usize>) -> error::Result<Rc<XmlItem>>;
 
     fn append(&self, value: Rc<XmlItem>) -> error::Result<Rc<XmlItem>> {
-        let id = self.last_child_or_self_id();
-        value.set_order_after(id);
-        self.insert_by_id(value, None)
+        let value = self.insert_by_id(value, None)?;
+        self.context().ordering.borrow_mut().invalidate();
+        Ok(value)
     }
 
     fn delete(&self, id: usize) -> Option<Rc<XmlItem>> {
         if let Some(v) = self.delete_by_id(id) {
-            v.clear_order();
+            self.context().ordering.borrow_mut().invalidate();
             Some(v)
         } else {
             None
@@ -67,10 +67,9 @@ pub trait HasChildren: HasContext {
 
     fn insert_before(&self, value: Rc<XmlItem>, id: usize) -> error::Result<Rc<XmlItem>> {
         self.child_index(id).ok_or(error::Error::OufOfIndex(id))?;
-        value
-            .set_order_before(id)
-            .ok_or(error::Error::OufOfIndex(id))?;
-        self.insert_by_id(value, Some(id))
+        let value = self.insert_by_id(value, Some(id))?;
+        self.context().ordering.borrow_mut().invalidate();
+        Ok(value)
     }
 }
 
@@ -82,14 +81,6 @@ pub trait HasContext {
     fn context_mut(&mut self) -> &mut Context;
 
     fn init_order_recursive(&self);
-
-    fn clear_order(&self) {
-        let id = self.context().info.borrow().id;
-        if let Some(version) = self.context().ordering.borrow_mut().remove(id) {
-            self.context().info.borrow_mut().order_cache = 0;
-            self.context().info.borrow_mut().order_version = version;
-        }
-    }
 
     fn id(&self) -> usize {
         self.context().info.borrow().id
@@ -106,6 +97,12 @@ pub trait HasContext {
     }
 
     fn order(&self) -> usize {
+        // The order of the whole document is recomputed after a structural change: a moved or
+        // removed node takes its attributes and descendants with it.
+        if self.context().ordering.borrow().stale {
+            self.context().rebuild_order();
+        }
+
         let cache_version = self.context().info.borrow().order_version;
         let order_version = self.context().ordering.borrow().version;
         if cache_version < order_version {
@@ -121,36 +118,6 @@ pub trait HasContext {
 
     fn owner(&self) -> XmlNode<XmlDocument> {
         self.context().document().clone()
-    }
-
-    fn set_order_after(&self, id: usize) -> Option<usize> {
-        let info = self.context().info.clone();
-        if self
-            .context()
-            .ordering
-            .borrow_mut()
-            .insert_after(id, &info)
-            .is_some()
-        {
-            Some(self.order())
-        } else {
-            None
-        }
-    }
-
-    fn set_order_before(&self, id: usize) -> Option<usize> {
-        let info = self.context().info.clone();
-        if self
-            .context()
-            .ordering
-            .borrow_mut()
-            .insert_before(id, &info)
-            .is_some()
-        {
-            Some(self.order())
-        } else {
-            None
-        }
     }
 }
 
@@ -2419,8 +2386,8 @@ impl XmlElement {
     }
 
     pub fn append_attribute(&mut self, attr: Rc<XmlItem>) {
-        attr.init_order_recursive();
         self.attributes.push(attr);
+        self.context.ordering.borrow_mut().invalidate();
     }
 
     pub fn namespaces(&self) -> error::Result<Vec<XmlNode<XmlNamespace>>> {
@@ -2458,7 +2425,7 @@ impl XmlElement {
         {
             self.attributes
                 .retain(|v| v.as_attribute().unwrap().borrow().local_name() != name);
-            v.clear_order();
+            self.context.ordering.borrow_mut().invalidate();
             Some(v)
         } else {
             None
@@ -3048,26 +3015,6 @@ impl XmlItem {
         }
     }
 
-    fn clear_order(&self) {
-        match self {
-            XmlItem::Attribute(v) => v.borrow().clear_order(),
-            XmlItem::CData(v) => v.borrow().clear_order(),
-            XmlItem::CharReference(v) => v.borrow().clear_order(),
-            XmlItem::Comment(v) => v.borrow().clear_order(),
-            XmlItem::DeclarationAttList(v) => v.borrow().clear_order(),
-            XmlItem::Document(v) => v.borrow().clear_order(),
-            XmlItem::DocumentType(v) => v.borrow().clear_order(),
-            XmlItem::Element(v) => v.borrow().clear_order(),
-            XmlItem::Entity(v) => v.borrow().clear_order(),
-            XmlItem::Namespace(v) => v.borrow().clear_order(),
-            XmlItem::Notation(v) => v.borrow().clear_order(),
-            XmlItem::PI(v) => v.borrow().clear_order(),
-            XmlItem::Text(v) => v.borrow().clear_order(),
-            XmlItem::Unexpanded(v) => v.borrow().clear_order(),
-            XmlItem::Unparsed(v) => v.borrow().entity().borrow().clear_order(),
-        }
-    }
-
     pub fn id(&self) -> usize {
         match self {
             XmlItem::Attribute(v) => v.borrow().id(),
@@ -3187,45 +3134,6 @@ impl XmlItem {
         }
     }
 
-    fn set_order_after(&self, id: usize) -> Option<usize> {
-        match self {
-            XmlItem::Attribute(v) => v.borrow().set_order_after(id),
-            XmlItem::CData(v) => v.borrow().set_order_after(id),
-            XmlItem::CharReference(v) => v.borrow().set_order_after(id),
-            XmlItem::Comment(v) => v.borrow().set_order_after(id),
-            XmlItem::DeclarationAttList(v) => v.borrow().set_order_after(id),
-            XmlItem::Document(v) => v.borrow().set_order_after(id),
-            XmlItem::DocumentType(v) => v.borrow().set_order_after(id),
-            XmlItem::Element(v) => v.borrow().set_order_after(id),
-            XmlItem::Entity(v) => v.borrow().set_order_after(id),
-            XmlItem::Namespace(v) => v.borrow().set_order_after(id),
-            XmlItem::Notation(v) => v.borrow().set_order_after(id),
-            XmlItem::PI(v) => v.borrow().set_order_after(id),
-            XmlItem::Text(v) => v.borrow().set_order_after(id),
-            XmlItem::Unexpanded(v) => v.borrow().set_order_after(id),
-            XmlItem::Unparsed(v) => v.borrow().entity().borrow().set_order_after(id),
-        }
-    }
-
-    fn set_order_before(&self, id: usize) -> Option<usize> {
-        match self {
-            XmlItem::Attribute(v) => v.borrow().set_order_before(id),
-            XmlItem::CData(v) => v.borrow().set_order_before(id),
-            XmlItem::CharReference(v) => v.borrow().set_order_before(id),
-            XmlItem::Comment(v) => v.borrow().set_order_before(id),
-            XmlItem::DeclarationAttList(v) => v.borrow().set_order_before(id),
-            XmlItem::Document(v) => v.borrow().set_order_before(id),
-            XmlItem::DocumentType(v) => v.borrow().set_order_before(id),
-            XmlItem::Element(v) => v.borrow().set_order_before(id),
-            XmlItem::Entity(v) => v.borrow().set_order_before(id),
-            XmlItem::Namespace(v) => v.borrow().set_order_before(id),
-            XmlItem::Notation(v) => v.borrow().set_order_before(id),
-            XmlItem::PI(v) => v.borrow().set_order_before(id),
-            XmlItem::Text(v) => v.borrow().set_order_before(id),
-            XmlItem::Unexpanded(v) => v.borrow().set_order_before(id),
-            XmlItem::Unparsed(v) => v.borrow().entity().borrow().set_order_before(id),
-        }
-    }
 }
 
 // -----------------------------------------------------------------------------------------------
@@ -4161,6 +4069,11 @@ impl Context {
         self.id_map.borrow().get(&id).and_then(|v| v.upgrade())
     }
 
+    fn rebuild_order(&self) {
+        self.ordering.borrow_mut().clear();
+        self.document().borrow().init_order_recursive();
+    }
+
     fn zero(&self) -> Context {
         Context {
             info: singleton(ContextInfo::default()),
@@ -4218,9 +4131,16 @@ impl fmt::Debug for ContextInfo {
 struct DocumentOrder {
     order: Vec<Weak<RefCell<ContextInfo>>>,
     version: usize,
+    stale: bool,
 }
 
 impl DocumentOrder {
+    fn clear(&mut self) {
+        self.order.clear();
+        self.version += 1;
+        self.stale = false;
+    }
+
     fn get(&self, id: usize) -> usize {
         self.order
             .iter()
@@ -4229,46 +4149,13 @@ impl DocumentOrder {
             .unwrap_or_default()
     }
 
-    fn insert_after(&mut self, id: usize, info: &Singleton<ContextInfo>) -> Option<usize> {
-        self.remove(info.borrow().id);
-
-        let order = self.get(id);
-        if order > 0 {
-            self.order.insert(order, Rc::downgrade(info));
-            self.version += 1;
-            Some(self.version)
-        } else {
-            None
-        }
-    }
-
-    fn insert_before(&mut self, id: usize, info: &Singleton<ContextInfo>) -> Option<usize> {
-        self.remove(info.borrow().id);
-
-        let order = self.get(id);
-        if order > 0 {
-            self.order.insert(order - 1, Rc::downgrade(info));
-            self.version += 1;
-            Some(self.version)
-        } else {
-            None
-        }
+    fn invalidate(&mut self) {
+        self.stale = true;
     }
 
     fn push(&mut self, info: &Singleton<ContextInfo>) -> (usize, usize) {
         self.order.push(Rc::downgrade(info));
         (self.order.len(), self.version)
-    }
-
-    fn remove(&mut self, id: usize) -> Option<usize> {
-        let order = self.get(id);
-        if order > 0 {
-            self.order.remove(order - 1);
-            self.version += 1;
-            Some(self.version)
-        } else {
-            None
-        }
     }
 }
 
